@@ -12,7 +12,7 @@
    A delivered result is (trial t, (run tag k, index i, result r, st_tuner_time ts)); the tag and
    index are ghost data naming the job run ([runs st'] = log of executed job runs: trial, start
    time = time of the start event, configuration, seed, resume level, reported results). *)
-From Verif Require Import model.Base model.Sim proofs.SimProofs.
+From Verif Require Import model.Base model.Sim proofs.SimProofs proofs.SimDeliveryProofs.
 From Coq Require Import Qminmax Sorted Permutation.
 Open Scope Q_scope.
 
@@ -22,13 +22,15 @@ Open Scope Q_scope.
    its level: level = resume point + i + 1 (resume point = the level the trial was paused at, with
    checkpointing; 0 otherwise), metrics = the row's metrics, level <= max_resource.  The levels a
    run reports are consecutive starting right after the resume point.  The seed of every run of a
-   trial is the trial's single seed (the fixed one, or the one stored for the trial). *)
+   trial is the trial's single seed (the fixed one, or the one stored for the trial).
+   That run is the trial's LATEST run ([latest]: no later entry of the run log belongs to the
+   trial): a result of an earlier run of a resumed trial is never delivered (nudge = 1e-3 >= 0). *)
 Theorem c10_values :
-  forall S_ tbl draw ops pre st' rs sts post,
+  forall S_ tbl draw, 0 <= nudge S_ -> forall ops pre st' rs sts post,
     run_ops S_ tbl draw init_state ops = pre ++ Ok (st', OutFetch rs sts) :: post ->
     forall t k i r ts, In (t, (k, i, r, ts)) rs ->
     exists run,
-      nth_error (runs st') k = Some run /\ run_trial run = t /\
+      nth_error (runs st') k = Some run /\ run_trial run = t /\ latest (runs st') t k /\
       nth_error (run_results run) i = Some r /\
       (exists rw, nth_error (curve_of tbl (run_cfg run) (run_seed run))
                             (resume_point S_ (run_rp run) + i) = Some rw /\
@@ -42,10 +44,12 @@ Theorem c10_values :
       | None => lookup t (seeds st') = Some (run_seed run)
       end.
 Proof.
-  intros S_ tbl draw ops pre st' rs sts post H t k i r ts Hin.
+  intros S_ tbl draw Hn ops pre st' rs sts post H t k i r ts Hin.
   destruct (fetch_delivered S_ tbl draw ops pre st' rs sts post H t k i r ts Hin)
     as (run & A & B & C & D & E & F & _).
-  exists run. repeat split; assumption.
+  pose proof (fetch_latest S_ tbl draw Hn ops pre st' rs sts post H t k i r ts Hin) as L.
+  exists run. split; [exact A|]. split; [exact B|]. split; [exact L|]. split; [exact C|].
+  split; [exact D|]. split; [exact E|exact F].
 Qed.
 Print Assumptions c10_values.
 
@@ -58,11 +62,11 @@ Print Assumptions c10_values.
    repair is part of "the table's elapsed time"; for columns that violate the eps spacing the
    raw-table equation is false by design and is not claimed. *)
 Theorem c10_timestamp :
-  forall S_ tbl draw ops pre st' rs sts post,
+  forall S_ tbl draw, 0 <= nudge S_ -> forall ops pre st' rs sts post,
     run_ops S_ tbl draw init_state ops = pre ++ Ok (st', OutFetch rs sts) :: post ->
     forall t k i r ts, In (t, (k, i, r, ts)) rs ->
     exists run,
-      nth_error (runs st') k = Some run /\ run_trial run = t /\
+      nth_error (runs st') k = Some run /\ run_trial run = t /\ latest (runs st') t k /\
       nth_error (run_results run) i = Some r /\
       ts == run_te run + res_elapsed r + d_result S_ /\
       repaired S_ None (raw_job S_ tbl (run_cfg run) (run_seed run) (run_rp run)) (run_results run) /\
@@ -72,10 +76,12 @@ Theorem c10_timestamp :
                   res_elapsed r == r_elapsed rw -
                     offset tbl (run_cfg run) (run_seed run) (resume_point S_ (run_rp run))).
 Proof.
-  intros S_ tbl draw ops pre st' rs sts post H t k i r ts Hin.
+  intros S_ tbl draw Hn ops pre st' rs sts post H t k i r ts Hin.
   destruct (fetch_delivered S_ tbl draw ops pre st' rs sts post H t k i r ts Hin)
     as (run & A & B & C & _ & _ & _ & G & H1 & H2).
-  exists run. repeat split; assumption.
+  pose proof (fetch_latest S_ tbl draw Hn ops pre st' rs sts post H t k i r ts Hin) as L.
+  exists run. split; [exact A|]. split; [exact B|]. split; [exact L|]. split; [exact C|].
+  split; [exact G|]. split; [exact H1|exact H2].
 Qed.
 Print Assumptions c10_timestamp.
 
@@ -120,6 +126,47 @@ Proof.
   intros. split; [exact (schedule_start_event S_ tbl draw) | exact (proc_start_run S_ tbl draw)].
 Qed.
 Print Assumptions c10_run_start.
+
+(* ---- delivery: once, in order, in time ----------------------------------------------------- *)
+(* [deliveries outs] = everything the fetches of a call sequence hand out, in order.  For any two
+   deliveries of the same run the earlier one has the smaller report index ([Rd]); the level of
+   report i is resume point + i + 1 (c10_values).  Hence, over the whole call sequence, a report
+   is delivered at most once and the reports of a run are delivered in level order.  This covers
+   the bookkeeping after the pop: the append to _next_results_to_fetch, the concatenation over
+   trial_ids and the discarding in fetch_status_results, the drop at the end of
+   _stop_or_pause_trial.  (eps = 0.01 >= 0.) *)
+Theorem c10_once_in_order :
+  forall S_ tbl draw, 0 <= eps S_ -> forall ops,
+    StronglySorted (fun a b : delivered => ptag (snd a) = ptag (snd b) -> (pidx (snd a) < pidx (snd b))%nat)
+                   (deliveries (run_ops S_ tbl draw init_state ops)).
+Proof. exact deliveries_once_in_order. Qed.
+Print Assumptions c10_once_in_order.
+
+(* A fetch that succeeds in a state reached by successful calls leaves nothing due in the queue and
+   nothing pending, and it delivers, for every trial it polls, every report that is due by then:
+   the reports queued before the call (a) and the reports of runs started inside the call (b).
+   So a report still queued is delivered by the first fetch after its event time that polls the
+   trial; reports leave the queue otherwise only through the stop event of a stop / pause of the
+   trial (remove_events) and the pending table only through a fetch (delivered when polled,
+   discarded when not) or the drop at the end of a stop / pause of the trial. *)
+Theorem c10_timely :
+  forall S_ tbl draw, 0 <= nudge S_ ->
+  forall st ids dt st' rs sts,
+    (st = init_state \/ exists ops pre o rest, run_ops S_ tbl draw init_state ops = pre ++ Ok (st, o) :: rest) ->
+    step S_ tbl draw st (OpFetch ids dt) = Ok (st', OutFetch rs sts) ->
+    (forall x, In x (heap st') -> clock st' < h_time x) /\ nextres st' = [] /\
+    (forall x k i r, In x (heap st) -> h_ev x = EvResult k i r -> h_time x <= clock st' ->
+       In (h_trial x) ids -> In (h_trial x, (k, i, r, h_time x)) rs) /\
+    (forall k run i r, (length (runs st) <= k)%nat -> nth_error (runs st') k = Some run ->
+       nth_error (run_results run) i = Some r -> due_time S_ (run_te run) r <= clock st' ->
+       In (run_trial run) ids -> In (run_trial run, (k, i, r, due_time S_ (run_te run) r)) rs).
+Proof.
+  intros S_ tbl draw Hn st ids dt st' rs sts Hst.
+  apply (fetch_timely S_ tbl draw Hn). destruct Hst as [->|(ops & pre & o & rest & H)].
+  - constructor.
+  - exact (run_ops_state_reach S_ tbl draw _ _ _ _ _ _ H).
+Qed.
+Print Assumptions c10_timely.
 
 (* ---- the clock ----------------------------------------------------------------------------- *)
 (* Simulated time never runs backwards: over any operation sequence, from any state, the clock
@@ -195,9 +242,7 @@ Print Assumptions c10_heap_push_pop.
    initially, after every call and after every iteration of the event loop, and under [J] the
    event popped next, if it is report i of run k, has the smallest index of all queued reports of
    run k.  (eps >= 0: the repaired elapsed times of a run do not decrease.)
-   Not stated as a theorem: the bookkeeping after the pop (append to _next_results_to_fetch,
-   concatenation in fetch_status_results) keeps that order; it is covered by the correspondence
-   check and the independent checker only. *)
+   The bookkeeping after the pop is covered by c10_once_in_order above. *)
 Theorem c10_pop_in_order :
   forall S_ tbl draw, 0 <= eps S_ ->
     let J := fun st => IO S_ tbl st /\ HInv st in
